@@ -388,6 +388,38 @@ func signingCoverage(c *an.Ctx, rule, short, typ string, exempt ...string) {
 		cnt++
 		c.Check(okFit, rule, sb, call.Pos(), an.KeyOf(sb, "copy-fits:"+e.Field), fmt.Sprintf("the buffer region that receives %s has room for all its %d bytes (copy would silently drop the rest, leaving them unsigned)", e.Field, e.Width), "len(destination) "+sys.Describe(an.LenTerm(dst)))
 	}
+	// no write into the signed buffer lands on bytes that another write of the builder already filled (a cursor that
+	// was not advanced): the overwritten field would no longer be covered
+	{
+		type region struct {
+			lo, hi int
+			ev     an.CodecEvent
+		}
+		var regs []region
+		for _, e := range p.CodecEvents(sb) {
+			in, isIn := e.Instr.(ssa.Instruction)
+			if e.Op != "W" || e.Width <= 0 || !isIn || in.Parent() != sb || !strings.HasPrefix(e.Off, "#") {
+				continue
+			}
+			lo, err := strconv.Atoi(e.Off[1:])
+			if err != nil {
+				continue
+			}
+			regs = append(regs, region{lo, lo + e.Width, e})
+		}
+		for i := range regs {
+			for j := i + 1; j < len(regs); j++ {
+				a, b := regs[i], regs[j]
+				if a.ev.Instr == b.ev.Instr || (a.ev.Field == b.ev.Field && a.lo == b.lo && a.hi == b.hi) {
+					continue // the two arms of one conditional write
+				}
+				if a.lo < b.hi && b.lo < a.hi {
+					cnt++
+					c.Violated(rule, sb, b.ev.Instr.Pos(), an.KeyOf(sb, "no-overwrite:"+a.ev.Field+"/"+b.ev.Field), fmt.Sprintf("%s.SigningBytes writes %s over bytes %d..%d that hold %s: the overwritten field is not covered by the signature", typ, b.ev.Field, a.lo, a.hi, a.ev.Field), fmt.Sprintf("%s at %d..%d, %s at %d..%d", a.ev.Sig(), a.lo, a.hi, b.ev.Sig(), b.lo, b.hi))
+				}
+			}
+		}
+	}
 	// a builder of the form Serialize()[:H] with a constant H: every field outside the signature must lie below the cut
 	{
 		fi0 := p.Info(sb)
